@@ -322,12 +322,59 @@ Fixpoint render_enum_arms (i : nat) (vs : list variant) : res (list (nat * sourc
 Definition render_enum (vs : list variant) : res (list (nat * source_code)) :=
   render_enum_arms 0 vs.
 
-(* `match self { arms.., _ => None }` (or no `fn source` at all when there is no arm) evaluated on
-   a value of the variant at position k *)
+(* the arm selected by `match self { arms.. }` for a value of the variant at position k; no arm for
+   it: the wildcard `_ => None`, if there is one (see [match_exhaustive]) *)
 Fixpoint enum_source_returns (arms : list (nat * source_code)) (k : nat) : option nat :=
   match arms with
   | [] => None
   | (i, c) :: r => if Nat.eqb i k then source_returns c else enum_source_returns r k
+  end.
+
+(* error.rs:159-173 the `render` closure of render_enum applied to the source arms:
+     `if !match_arms.is_empty() && match_arms.len() < state.variants.len() { push `_ => None` }`
+     `(!match_arms.is_empty()).then(|| quote! { match self { #(#match_arms),* } })`
+   The wildcard is decided against ALL variants (`state.variants`), ignored ones included. *)
+Inductive enum_source_fn :=
+| NoSourceFn                                               (* no `fn source`: the trait default, `None` *)
+| MatchSelf (arms : list (nat * source_code)) (wildcard : bool).
+
+Definition render_enum_source (vs : list variant) : res enum_source_fn :=
+  res_bind (render_enum vs) (fun arms =>
+  Ok (match arms with
+      | [] => NoSourceFn
+      | _ :: _ => MatchSelf arms (Nat.ltb (length arms) (length vs))
+      end)).
+
+(* error.rs:156 `bounds.extend(parsed_fields.bounds)`: (variant position, all-space field position)
+   of every field whose type receives the bound *)
+Fixpoint enum_bounds_from (i : nat) (vs : list variant) : list (nat * nat) :=
+  match vs with
+  | [] => []
+  | v :: r =>
+    if v_ignore v then enum_bounds_from (S i) r
+    else match expand Variant (v_shape v) (v_fields v) with
+         | Ok x => match x_bound x with
+                   | Some j => (i, j) :: enum_bounds_from (S i) r
+                   | None => enum_bounds_from (S i) r
+                   end
+         | _ => enum_bounds_from (S i) r
+         end
+  end.
+
+(* Layer-2 semantics of the emitted `match self`: every arm pattern `E::Vi(..)` consists of bindings
+   and `_` only, hence matches every value of its variant; rustc accepts the match (E0004 otherwise)
+   iff there is a wildcard or every variant has an arm *)
+Definition covers (arms : list (nat * source_code)) (k : nat) : bool :=
+  existsb (fun a => Nat.eqb (fst a) k) arms.
+Definition match_exhaustive (f : enum_source_fn) (nvariants : nat) : bool :=
+  match f with
+  | NoSourceFn => true
+  | MatchSelf arms wildcard => wildcard || forallb (covers arms) (seq 0 nvariants)
+  end.
+Definition enum_fn_returns (f : enum_source_fn) (k : nat) : option nat :=
+  match f with
+  | NoSourceFn => None
+  | MatchSelf arms _ => enum_source_returns arms k
   end.
 
 (* ------------------------------------------------------------------ the documented rules *)
@@ -446,6 +493,21 @@ Definition run_enum_case (ign : bool) (sh : shape) (fs : list field)
   | Ok arms => (OOk, enum_source_returns arms 0, enum_source_returns arms 1)
   | Err => (OErr, None, None)
   | Panic => (OPanic, None, None)
+  end.
+
+(* a whole enum: (outcome, (has `fn source`, wildcard arm, exhaustive), what `source()` returns on
+   each variant, bounds) *)
+Definition run_enum (vs : list variant)
+  : outcome * (bool * bool * bool) * list (option nat) * list (nat * nat) :=
+  match render_enum_source vs with
+  | Ok f => (OOk,
+             (match f with NoSourceFn => false | MatchSelf _ _ => true end,
+              match f with NoSourceFn => false | MatchSelf _ w => w end,
+              match_exhaustive f (length vs)),
+             map (enum_fn_returns f) (seq 0 (length vs)),
+             enum_bounds_from 0 vs)
+  | Err => (OErr, (false, false, true), [], [])
+  | Panic => (OPanic, (false, false, true), [], [])
   end.
 
 (* ------------------------------------------------------------------ before commit 6329c3f *)
